@@ -269,6 +269,29 @@ func c07(c *Ctx) {
 		inputs = append(inputs, unhx(s))
 		kinds = append(kinds, "corpus")
 	}
+	// directed family: every extension priority 0..9 used twice under different names (alone, between
+	// other extensions, in both orders), every single priority, and the full set of ten
+	for p := 0; p <= 9; p++ {
+		oid := randOid(r)
+		line := func(pr int, name string) string { return fmt.Sprintf("ext-%d-%s sha256:%s\n", pr, name, oid) }
+		head := "version https://git-lfs.github.com/spec/v1\n"
+		tail := fmt.Sprintf("oid sha256:%s\nsize 12\n", oid)
+		variants := []string{
+			head + line(p, "foo") + line(p, "bar") + tail,
+			head + line(p, "bar") + line(p, "foo") + tail,
+			head + line(p, "only") + tail,
+		}
+		if p > 0 {
+			variants = append(variants, head+line(p-1, "lo")+line(p, "foo")+line(p, "bar")+tail)
+		}
+		if p < 9 {
+			variants = append(variants, head+line(p, "foo")+line(p, "bar")+line(p+1, "hi")+tail, head+line(p+1, "hi")+line(p, "foo")+tail)
+		}
+		for _, v := range variants {
+			inputs = append(inputs, []byte(v))
+			kinds = append(kinds, "directed-ext")
+		}
+	}
 	var ptrs []*lfs.Pointer
 	for i := 0; i < n; i++ {
 		k := r.Intn(10)
